@@ -112,7 +112,7 @@ def gen_mesh(rng, tier, nd=None, exact=True, with_subs=True, maxcells=None):
             p1[a], p2[a] = p2[a], p1[a]
     dims = None
     if rng.random() < 0.15:
-        dims = rng.sample(["u", "v", "w", "t", "q"], nd)
+        dims = rng.sample(["u", "w", "t", "q", "s"], nd)   # not "v"/"r": Line.data column names
     subs = []
     if with_subs and rng.random() < 0.8:
         names = rng.sample(NAMES, rng.randint(1, 4))
@@ -764,8 +764,9 @@ def generate(rng, tier):
         else:
             vd = rng.sample(["a", "b", "c", "mx", "my", "e1", "e2"], nv)
         default = ["x", "y", "z"][:nv] if 2 <= nv <= 3 else ([f"v{i}" for i in range(nv)] if nv > 3 else [])
-        pool = (vd or default) + ["x", "nope", "v1"]
-        cases.append(dict(kind="comp", mesh=m, nv=nv, dtype=dtype, spec=spec, vdims=vd, label=rng.choice(pool)))
+        known = vd or default
+        label = rng.choice(known) if known and rng.random() < 0.7 else rng.choice(["x", "nope", "v1", "a"])
+        cases.append(dict(kind="comp", mesh=m, nv=nv, dtype=dtype, spec=spec, vdims=vd, label=label))
     # -- iteration
     for k in range(N):
         m = gen_mesh(rng, tier, exact=True, with_subs=False, maxcells=48)
@@ -861,7 +862,10 @@ def run_case(c):
 
     if kind == "assign":
         s0, s1 = c["s0"], c["s1"]
-        f = make_field(m, nv, dtype, s0, "ctor")
+        st0, f = attempt(lambda: make_field(m, nv, dtype, s0, "ctor"))
+        if st0 != "ok":      # s0 is always a valid specification
+            rec.update(obs=dict(err=f), coq=None, oracle=["valid-spec-rejected"], key="assign/setup-failed")
+            return rec
         before = f.array.copy()
         val = py_spec(s1, dtype)
         if c["via"] == "setter":
@@ -891,7 +895,10 @@ def run_case(c):
         return rec
 
     spec = c["spec"]
-    f = make_field(m, nv, dtype, spec, "ctor", vdims=c.get("vdims"))
+    st0, f = attempt(lambda: make_field(m, nv, dtype, spec, "ctor", vdims=c.get("vdims")))
+    if st0 != "ok":          # these kinds only use valid specifications
+        rec.update(obs=dict(err=f), coq=None, oracle=["valid-spec-rejected"], key=kind + "/setup-failed")
+        return rec
     lo, hi, cell = geom(m)
 
     if kind == "sample":
